@@ -255,6 +255,101 @@ func run(c *runner.Ctx) {
 		}
 		menu = red
 	}
+	// (1c) the value handed to the builder with its separator in front ("=1~10"): the builder writes no second
+	// separator, and everything behind that one separator is the value - also when the value itself starts with '='
+	c.Space("roundtrip/value-given-with-its-separator")
+	for _, k := range keys {
+		if k == "in" || k == "include" || k == "re" {
+			continue // these three wrap the value (brackets / quotes): the separator is theirs to write
+		}
+		for _, v := range []string{"1", "1~10", "a=b", "=>", "=", "==", "=1", "=(a", "中", "x "} {
+			for _, m := range []string{"\x00none", "m", "说明文字", "a=b", "=", "=="} {
+				if !c.Take() {
+					continue
+				}
+				var built string
+				if m == "\x00none" {
+					built = valid.GenValidKV(k, "="+v)
+				} else {
+					built = valid.GenValidKV(k, "="+v, m)
+				}
+				rm := valid.NewRule().Set("F", "required", built, "zz")
+				pieces := valid.ValidNamesSplit(rm.Get("F"))
+				c.Done(true, 3)
+				want := single{key: k, val: v, msg: m, hasMsg: m != "\x00none"}
+				if !want.hasMsg {
+					want.msg = ""
+				}
+				ek, ev, em := want.expected()
+				det := map[string]interface{}{"built_from": fmt.Sprintf("GenValidKV(%q, %q, %q)", k, "="+v, m), "text": built, "pieces": pieces}
+				if len(pieces) != 3 {
+					c.Violation("roundtrip/separator-given/count", det)
+					continue
+				}
+				if gk, gv, gm := valid.ParseValidNameKV(pieces[1]); gk != ek || gv != ev || gm != em || pieces[0] != "required" || pieces[2] != "zz" {
+					det["what"] = fmt.Sprintf("parsed (%q,%q,%q), expected (%q,%q,%q)", gk, gv, gm, ek, ev, em)
+					c.Violation("roundtrip/separator-given/parse", det)
+					continue
+				}
+				c.Outcome("ok")
+			}
+		}
+	}
+	// (1d) one rule slice (with empty entries) spread into Set for two objects in a row: the second object gets what
+	// the first got, and the caller's slice is the caller's
+	c.Space("roundtrip/one-rule-slice-for-two-objects")
+	for _, shape := range [][]string{{"required", "", "to=1~3|m", "eq=5"}, {"", "", "phone", "", "le=3", ""}, {"a", "", "b", "c", "", "d", "e"}, {"", "x"}, {"x", ""}, {"re='a,b'", "", "in=(a/b)", "", "ge=1|'x,y'"}} {
+		for how := 0; how < 3; how++ {
+			if !c.Take() {
+				continue
+			}
+			orig := append([]string{}, shape...)
+			rules := append(make([]string, 0, len(shape)+3), shape...) // spare capacity, as a slice grown by append has
+			var want []string
+			for _, r := range orig {
+				if r != "" {
+					want = append(want, r)
+				}
+			}
+			var texts []string
+			for obj := 0; obj < 3; obj++ {
+				rm := valid.NewRule()
+				switch how {
+				case 0:
+					rm.Set("F", rules...)
+				case 1:
+					rm.Set("F,G", rules...)
+				case 2:
+					rm.Set("F", "first")
+					rm.Set("F", rules...)
+				}
+				texts = append(texts, rm.Get("F"))
+			}
+			c.Done(true, 3)
+			det := map[string]interface{}{"rule_slice": orig, "rule_slice_after_the_calls": rules, "set_mode": how, "texts_of_the_three_objects": texts}
+			if strings.Join(rules, "\x00") != strings.Join(orig, "\x00") {
+				c.Violation("roundtrip/callers-rule-slice-modified", det)
+				continue
+			}
+			bad := false
+			for _, t := range texts {
+				var ne []string
+				for _, p := range valid.ValidNamesSplit(t) {
+					if p != "" && p != "first" {
+						ne = append(ne, p)
+					}
+				}
+				if strings.Join(ne, "\x00") != strings.Join(want, "\x00") {
+					bad = true
+				}
+			}
+			if bad || texts[0] != texts[1] || texts[1] != texts[2] {
+				c.Violation("roundtrip/same-slice-different-text", det)
+				continue
+			}
+			c.Outcome("ok")
+		}
+	}
 	c.Space("roundtrip/lists2")
 	for _, a := range menu {
 		for _, b := range menu {
